@@ -127,21 +127,6 @@ impl Router {
     pub(crate) fn register_handlers(&mut self, handlers: HandlerSet) {
         let HandlerSet { route, GET, PUT, POST, PATCH, DELETE } = handlers;
 
-        let methods = {
-            macro_rules! allow_methods {
-                ($($method:ident),*) => {{
-                    let mut methods = Vec::new();
-                    $(
-                        if $method.is_some() {
-                            methods.push(stringify!($method))
-                        }
-                    )*
-                    methods
-                }}
-            }
-            allow_methods! { GET, PUT, POST, PATCH, DELETE }
-        };
-
         macro_rules! register {
             ($( $method:ident ),*) => {$(
                 if let Some((handler, meta)) = $method {
@@ -158,6 +143,27 @@ impl Router {
             )*};
         }
         register! { GET, PUT, POST, PATCH, DELETE }
+
+        // All methods registered for this route so far, not only by this
+        // `HandlerSet`: a route may be defined in several pieces like
+        // `("/x".GET(f), "/x".POST(g))`, and each piece replaces the
+        // `OPTIONS` handler of the route.
+        let methods = {
+            macro_rules! allow_methods {
+                ($($method:ident),*) => {{
+                    let mut methods = Vec::new();
+                    if let Some(registered) = self.routes.get(&route) {
+                        $(
+                            if registered.get(&Method::$method).is_some() {
+                                methods.push(stringify!($method))
+                            }
+                        )*
+                    }
+                    methods
+                }}
+            }
+            allow_methods! { GET, PUT, POST, PATCH, DELETE }
+        };
 
         self.OPTIONS.register_handler(
             route.into_iter(),
